@@ -26,11 +26,14 @@ CLAIMS["C05"] = {
             "every builtin container name, the rendering shape of each API type kind, compositionality (every nested "
             "type key written by a to_dict is read by the kind's branch and handed to the translator; every nested mypy "
             "component is translated recursively), union normalisation (the joined member list carries a dedup and a "
-            "sort provenance tag; T? only under len == 2 and a none member), and that all nine positions call the same "
-            "translator pair. These are necessary conditions extracted as tables from the code by partitioned abstract "
+            "sort provenance tag; the values of merged Literal members are concatenated as they are; T? only under len == 2 and a "
+            "none member), that all nine positions call the same translator pair, and that the analyser never writes into "
+            "mypy's node / type objects (typed inventory of attribute and item stores), so every position translates the type "
+            "mypy analysed - this last rule found that list-typed class attributes were translated from unanalysed arguments "
+            "(repaired). These are necessary conditions extracted as tables from the code by partitioned abstract "
             "interpretation; agreement with an independent reference translation of arbitrary annotation text is not decided.",
     "note": TRUST + "Reference tables are the ones the property statement lists.",
-    "technique": "table extraction by specialisation per type class/kind/name + provenance tags on joined sequences",
+    "technique": "table extraction by specialisation per type class/kind/name + provenance tags on joined sequences + typed store inventory (mypy as a library)",
     "ref": "DESIGN.md section 5 C05",
 }
 CLAIMS["C06"] = {
@@ -50,11 +53,11 @@ CLAIMS["C20"] = {
     "text": "Decides for every declaration order and feature combination: every marker that can become pending is a key "
             "of the message table; a clean/dirty typestate over the effect traces of all generator methods shows that "
             "each declaration emitter ends with an empty pending set, embeds every flush result in its returned text, "
-            "and only calls nested declaration emitters with an empty pending set (so a marker can only be printed "
-            "directly above the declaration that raised it); the flush prints and empties; the set is reset at module "
+            "and only calls nested declaration emitters with an empty pending set - within a path and across the iterations of a "
+            "loop - (so a marker can only be printed directly above the declaration that raised it); the flush prints and empties; the set is reset at module "
             "start; and the guard of each marker, extracted as a truth table over the model features, equals the "
             "reference table from the property statement.",
-    "note": TRUST + "Loop bodies are analysed once peeled and once generically; effect traces of merged loop states are unions.",
+    "note": TRUST + "Loop bodies are analysed once peeled and once generically; cross-iteration interference is decided per loop by combining 'some iteration ends pending' with 'some iteration enters a nested emitter first'.",
     "technique": "typestate over effect traces with callee summaries + guard truth tables by specialisation",
     "ref": "DESIGN.md section 5 C20",
 }
@@ -159,9 +162,11 @@ CLAIMS["C04"] = {
             "name; the decision table of _is_public over name form x parent kind x parent publicity x path publicity x "
             "re-export verdict (60 cells) equals the reference of the property; every path on which a re-export makes a "
             "declaration public established a public name or public alias, the right package or key, and (by-name) that the "
-            "import names the declaration; no memo cache in the visitor is under-keyed. Known findings: enums have no "
-            "publicity at all. The suffix-matching heuristics of re-export recognition are decided only through these "
-            "necessary conditions, not as a whole.",
+            "import names the declaration; conversely the truth table of each of the three import loops (wildcard import, "
+            "whole-module import, by-name import) over package relation x name equalities x alias form x name form x parent "
+            "(120 cells) equals the reference condition, so a public re-export is also recognised; no memo cache in the visitor "
+            "is under-keyed. Known findings: enums have no publicity at all. The string matching inside re-export recognition "
+            "(endswith / substring tests on arbitrary names) is taken as the atom of these tables and is not decided itself.",
     "note": TRUST,
     "technique": "per-iteration effect analysis of emission loops + decision-table extraction + path-fact conditions",
     "ref": "DESIGN.md section 5 C04",
@@ -230,11 +235,13 @@ CLAIMS["C13"] = {
             "root segment may be skipped); every lookup in the visitor uses the node / name / owner of the element being built and "
             "the result is stored on that element; every emitter renders the docstring of the element it emits (with that element "
             "as node), and @param / @result / description parts come from that element's own data; the module docstring search "
-            "stops at the first string; in example lines only the line's own prompt marker is rewritten. Line-for-line fidelity "
+            "stops at the first string; what the class / function getters collect over the sections of a docstring (description, example "
+            "lines) is accumulated and never overwritten by a later section (this rule found 'text after the parameter section "
+            "replaces the summary', repaired); in example lines only the line's own prompt marker is rewritten. Line-for-line fidelity "
             "of the text through griffe, the equivalence of the NumPy/Google/reST parsers and which example lines survive are "
             "properties of griffe's parsers and string processing and are NOT decided.",
     "note": TRUST,
-    "technique": "typestate of the docstring cache + argument provenance (same-subject) at lookups and emitters",
+    "technique": "typestate of the docstring cache + argument provenance (same-subject) at lookups and emitters + loop-carried accumulation lint",
     "ref": "DESIGN.md section 5 C13",
 }
 CLAIMS["C18"] = {
